@@ -2,9 +2,9 @@ SPECIFICATION MCSpec
 CONSTANTS London = 9
           Cancun = 12
           Amsterdam = 15
-          MCForks = {0, 9, 12, 15}
-          MaxAmt = 3
-          MaxDepth = 2
+          MCForks = {0, 12, 15}
+          MaxAmt = 2
+          MaxDepth = 1
           MaxTxs = 1
 INVARIANTS Conservation NonNegative SettledBetweenTxs
 CONSTRAINT Bounded
